@@ -64,14 +64,17 @@ package directive
 //@   ensures first(result) == first(filter(false, opt, profile)) && second(result) == nil
 
 // NewOption: the filter list is the list of blank-separated words after the directive name
-// (so the empty string is never a filter and an unknown family cannot match by accident).
+// (so the empty string is never a filter and an unknown family cannot match by accident);
+// every word is a key of the argument map under the text before its first "=" (interface+=x
+// is filed under "interface+", not under "interface").
 //@ func NewOption
-//@   opt prop=C03
+//@   opt prop=C03,C07
 //@   assigns nothing
 //@   freshresult
 //@   panics_when len(match) != 3
-//@   loop 1 invariant true
+//@   loop 1 invariant forall(k, 0, iter(1), has(argMap, before(argList[k], "=")))
 //@   ensures result.ArgList == ext("strings.Fields", match[2]) && result.Name == match[1] && result.Raw == match[0]
+//@   ensures forall(k, 0, len(result.ArgList), has(result.ArgMap, before(result.ArgList[k], "=")))
 //@   ensures !mem(result.ArgList, "")
 
 // Usage builds the usage text (printed by -h) in map order: not part of the build output.
